@@ -471,6 +471,20 @@ impl Property for NatProp {
                         let sig = format!("C05|{}|ok-vs-fault", code);
                         return CaseOut { verdict: Verdict::Fail { sig, msg: detail(&d, "the CPU faults on this operand's address but the emulator's access succeeded (address mismatch?)") }, nontrivial: true, ..out };
                     }
+                    if which == Which::C01 && matches!(d.emu, Emu::Err(_)) {
+                        // the CPU refuses the instruction and changes nothing; so must a refused step
+                        // (whether the step fails at all is C06's question)
+                        let what = match (&d.err_changed.0, &d.err_changed.1) {
+                            (Some(a), _) => Some(("mem", format!("the failed step changed memory at {:#x}", a))),
+                            (None, Some(r)) => Some(("reg", format!("the failed step changed a register: {}", r))),
+                            _ => None,
+                        };
+                        if let Some((l, text)) = what {
+                            let sig = format!("C01|{}|failed-step-changed-{}", code, l);
+                            return CaseOut { verdict: Verdict::Fail { sig, msg: detail(&d, &text) }, nontrivial: true, ..out };
+                        }
+                        return CaseOut::pass(true, fp).class(format!("form:{}", code)).class("cpu:faults/step-refuses/nothing-changed");
+                    }
                     return CaseOut::discard("cpu-faults (C06)");
                 }
                 match &d.emu {
